@@ -155,3 +155,54 @@ package evaluator
 //@   ensures[C11 panic-kind] err != nil ==> wraps(err, ErrPanic) && r == nil
 //@   ensures[C11 same] s.V == old(s.V)
 //@   modifies s.runeSlice
+
+// ---- maps: insertion-ordered dictionaries (docs/spec.md, Maps) ----
+// inOrder(m, k): key k occurs in the order slice (idxof is a choice function for its position).
+//@ pure inOrder(m *mapVal, k string) bool = 0 <= idxof(*m.Order, k) && idxof(*m.Order, k) < len(*m.Order) && (*m.Order)[idxof(*m.Order, k)] == k
+// wfMap: representation invariant: Order has no duplicates and enumerates exactly the keys of Pairs.
+//@ pure wfMapA(m *mapVal) bool = m.Order != nil && m.Pairs != nil && len(m.Pairs) == len(*m.Order) && forall(i, int, forall(j, int, 0 <= i && i < j && j < len(*m.Order) ==> (*m.Order)[i] != (*m.Order)[j])) && forall(i, int, 0 <= i && i < len(*m.Order) ==> has(m.Pairs, (*m.Order)[i]))
+//@ pure surjMap(m *mapVal) bool = forall(k, string, has(m.Pairs, k) ==> inOrder(m, k))
+//@ pure wfMap(m *mapVal) bool = wfMapA(m) && surjMap(m)
+
+//@ func (m *mapVal) Get(key string) (r value, err error)
+//@   props C12 C02
+//@   requires m.Pairs != nil
+//@   ensures[C12 present] has(m.Pairs, key) ==> err == nil && r == m.Pairs[key]
+//@   ensures[C12 missing] !has(m.Pairs, key) ==> r == nil && wraps(err, ErrMapKey) && wraps(err, ErrPanic)
+//@   mustfail ensures[C12 canary] err == nil
+//@   modifies nothing
+
+//@ func (m *mapVal) SetKey(key string, val value)
+//@   props C12 C09
+//@   requires wfMap(m)
+//@   let o = *m.Order
+//@   let n0 = old(len(*m.Order))
+//@   ensures[C12 same-objects] m.Order == old(m.Order) && m.Pairs == old(m.Pairs)
+//@   ensures[C12 C09 stored] has(m.Pairs, key) && m.Pairs[key] == val
+//@   ensures[C12 other-keys] forall(k, string, k != key ==> has(m.Pairs, k) == old(has(m.Pairs, k)) && m.Pairs[k] == old(m.Pairs[k]))
+//@   ensures[C12 overwrite-keeps-position] old(has(m.Pairs, key)) ==> len(*m.Order) == n0 && forall(i, int, 0 <= i && i < n0 ==> (*m.Order)[i] == old((*m.Order)[i]))
+//@   ensures[C12 new-key-last] !old(has(m.Pairs, key)) ==> len(*m.Order) == n0+1 && (*m.Order)[n0] == key && forall(i, int, 0 <= i && i < n0 ==> (*m.Order)[i] == old((*m.Order)[i]))
+//@   ensures[C12 wfA] wfMapA(m)
+//@   ensures[C12 lemma-position] forall(k, string, has(m.Pairs, k) ==> 0 <= ite(k == key && !old(has(m.Pairs, key)), n0, old(idxof(*m.Order, k))) && ite(k == key && !old(has(m.Pairs, key)), n0, old(idxof(*m.Order, k))) < len(*m.Order) && (*m.Order)[ite(k == key && !old(has(m.Pairs, key)), n0, old(idxof(*m.Order, k)))] == k && atpos(*m.Order, ite(k == key && !old(has(m.Pairs, key)), n0, old(idxof(*m.Order, k)))))
+//@   ensures[C12 surj] surjMap(m)
+//@   mustfail ensures[C12 canary] len(*m.Order) == n0
+//@   modifies *m.Order, (*m.Order)[*], m.Pairs[*]
+
+//@ func (m *mapVal) Delete(key string)
+//@   props C12
+//@   requires wfMap(m)
+//@   let n0 = old(len(*m.Order))
+//@   let p = old(idxof(*m.Order, key))
+//@   ensures[C12 same-objects] m.Order == old(m.Order) && m.Pairs == old(m.Pairs)
+//@   ensures[C12 absent-noop] !old(has(m.Pairs, key)) ==> len(*m.Order) == n0 && forall(i, int, 0 <= i && i < n0 ==> (*m.Order)[i] == old((*m.Order)[i]))
+//@   ensures[C12 removed] !has(m.Pairs, key)
+//@   ensures[C12 other-keys] forall(k, string, k != key ==> has(m.Pairs, k) == old(has(m.Pairs, k)) && m.Pairs[k] == old(m.Pairs[k]))
+//@   ensures[C12 lemma-unique] old(has(m.Pairs, key)) ==> forall(i, int, 0 <= i && i < n0 && old((*m.Order)[i]) == key ==> i == p)
+//@   ensures[C12 lemma-order-kept] old(has(m.Pairs, key)) ==> len(*m.Order) == n0-1 && forall(i, int, 0 <= i && i < p ==> (*m.Order)[i] == old((*m.Order)[i])) && forall(i, int, p <= i && i < n0-1 ==> (*m.Order)[i] == old((*m.Order)[i+1]))
+//@   ensures[C12 wfA] wfMapA(m)
+//@   ensures[C12 lemma-position] forall(k, string, has(m.Pairs, k) ==> 0 <= ite(!old(has(m.Pairs, key)) || old(idxof(*m.Order, k)) < p, old(idxof(*m.Order, k)), old(idxof(*m.Order, k))-1) && ite(!old(has(m.Pairs, key)) || old(idxof(*m.Order, k)) < p, old(idxof(*m.Order, k)), old(idxof(*m.Order, k))-1) < len(*m.Order) && (*m.Order)[ite(!old(has(m.Pairs, key)) || old(idxof(*m.Order, k)) < p, old(idxof(*m.Order, k)), old(idxof(*m.Order, k))-1)] == k && atpos(*m.Order, ite(!old(has(m.Pairs, key)) || old(idxof(*m.Order, k)) < p, old(idxof(*m.Order, k)), old(idxof(*m.Order, k))-1)))
+//@   ensures[C12 surj] surjMap(m)
+//@   mustfail ensures[C12 canary] len(*m.Order) == n0
+//@   modifies *m.Order, (*m.Order)[*], m.Pairs[*]
+//@   loop 1 invariant -1 <= rangeindex && rangeindex < n0 && forall(j, int, 0 <= j && j <= rangeindex ==> (*m.Order)[j] != key)
+//@   loop 1 decreases n0 - rangeindex
